@@ -397,6 +397,15 @@ func (rf *ReplicaFollower) preSync(leaderSp StartPoint) (sp StartPoint, err erro
 	rf.logger.Infof("gap : leader(%v), follower(%v)", leaderSp, sp)
 
 	if sp.IsInitial() || !sp.IsValid() || sp.RunId != leaderSp.RunId {
+		// the cache still belongs to another run id (an earlier session or role of this process) :
+		// that history can not be joined with the leader's, drop it instead of carrying it over
+		// to the leader's run id
+		if cur := rf.channel.RunId(); cur != "" && cur != leaderSp.RunId {
+			if err = rf.channel.DelRunId(cur); err != nil {
+				err = errors.Join(ErrRestart, err)
+				return
+			}
+		}
 		if err = rf.channel.SetRunId(leaderSp.RunId); err != nil {
 			err = errors.Join(ErrRestart, err)
 			return
